@@ -615,7 +615,11 @@ func checkG6Bytes(c g6BytesCase) *vk.Failure {
 		vk.NonTrivial("g6-total", c.Directed, string(s))
 	}
 	if valid != (why == "") {
-		return vk.Failf("isvalid-mismatch", "%s IsValid(%q)=%v but by the format definition the string is %s (order %d, %d body bytes)",
+		key := "isvalid-mismatch"
+		if n >= 1<<31 {
+			key = "isvalid-mismatch-order-wraps" // the size computation overflows 64 bits
+		}
+		return vk.Failf(key, "%s IsValid(%q)=%v but by the format definition the string is %s (order %d, %d body bytes)",
 			codec, quoteShort(s), valid, map[bool]string{true: "valid", false: "invalid: " + why}[why == ""], n, len(body))
 	}
 	g := asG6(s, c.Directed)
@@ -671,7 +675,11 @@ func checkG6Bytes(c g6BytesCase) *vk.Failure {
 		}
 		// last: the known weak spot
 		if r := vk.Call(func() { _ = g.GoString() }); r.Outcome != vk.Returned {
-			return vk.Failf("invalid-gostring-panics", "%s Graph(%q) is invalid (%s) and documented to behave as the null graph, but GoString ended in %v: %s", codec, quoteShort(s), why, r.Outcome, r.Text)
+			key := "invalid-gostring-panics"
+			if why == "empty" || why == "short-header" {
+				key = "invalid-gostring-panics-short-header"
+			}
+			return vk.Failf(key, "%s Graph(%q) is invalid (%s) and documented to behave as the null graph, but GoString ended in %v: %s", codec, quoteShort(s), why, r.Outcome, r.Text)
 		}
 		return nil
 	}
